@@ -19,6 +19,14 @@ namespace Hls.Playlist.MP
 
 abbrev Str := List Char
 
+open Lean in
+/-- `cs!"abc"` is the character list `['a', 'b', 'c']`, expanded at elaboration time (so that
+proofs see explicit `List.cons` terms and never have to evaluate `String.toList`). -/
+macro:max "cs!" s:str : term => do
+  let cs := s.getString.toList
+  let elems : Array (TSyntax `term) := (cs.map fun c => (⟨Syntax.mkCharLit c⟩ : TSyntax `term)).toArray
+  `(([$elems,*] : List Char))
+
 /-! ## Outcome monad -/
 
 inductive Res (α : Type) where
@@ -109,7 +117,7 @@ def readLine (s : Str) : Res (Str × Str) := do
 /-- `primitives.SkipHeader` -/
 def skipHeader (s : Str) : Res Str := do
   let (line, s) ← readLine s
-  if line ≠ "#EXTM3U".toList then .err else pure s
+  if line ≠ cs!"#EXTM3U" then .err else pure s
 
 /-! ### `strings.TrimSpace`
 Unicode aware: ASCII `\t \n \v \f \r ' '` plus the UTF-8 encodings of U+0085, U+00A0, U+1680,
@@ -359,7 +367,7 @@ string starts like a special value but has trailing bytes ⇒ syntax error. -/
 def parseSpecial (s : Str) : Option (Option F64) :=
   let body (neg : Bool) (t : Str) : Option (Option F64) :=
     let l := t.map lowerAscii
-    let n := (List.zip l "infinity".toList).takeWhile (fun p => p.1 = p.2) |>.length
+    let n := (List.zip l cs!"infinity").takeWhile (fun p => p.1 = p.2) |>.length
     let n := if 3 < n ∧ n < 8 then 3 else n
     if n = 3 ∨ n = 8 then (if t.length = n then some (some (.inf neg)) else some none) else none
   match s with
@@ -370,7 +378,7 @@ def parseSpecial (s : Str) : Option (Option F64) :=
   | c :: _ =>
     if c = 'n' ∨ c = 'N' then
       let l := s.map lowerAscii
-      if hasPrefix l "nan".toList then (if s.length = 3 then some (some .nan) else some none) else none
+      if hasPrefix l cs!"nan" then (if s.length = 3 then some (some .nan) else some none) else none
     else none
   | [] => none
 
@@ -526,8 +534,8 @@ def fmtFixed5 : F64 → Str
   | .fin neg m e =>
     let n : Nat := if e ≥ 0 then m * 2 ^ e.toNat * 100000 else roundHalfEven (m * 100000) (2 ^ (-e).toNat)
     (if neg then ['-'] else []) ++ formatNat (n / 100000) ++ '.' :: padNat 5 (n % 100000)
-  | .inf neg => (if neg then "-Inf" else "+Inf").toList
-  | .nan => "NaN".toList
+  | .inf neg => (if neg then cs!"-Inf" else cs!"+Inf")
+  | .nan => cs!"NaN"
 
 /-- `strconv.FormatFloat(d.Seconds(), 'f', 5, 64)` -/
 def ieeeFmtDur (d : Int) : Str := fmtFixed5 (ieeeSeconds d)
